@@ -247,7 +247,65 @@ func (c *Check) oracle(pre *St, op Op, out Outcome, post *St, m *sm.SeatManager,
 		}
 		atomic.AddInt64(&c.nextOK, 1)
 		c.positions(post, bad)
+		c.queries(post, m, bad)
 		c.lateJoiner(post, bad, "")
+	}
+}
+
+// queries: what the table reads after a successful Next must agree with the seats themselves.
+func (c *Check) queries(s *St, m *sm.SeatManager, bad sink) {
+	if m == nil || s.D < 0 {
+		return
+	}
+	defer func() {
+		if r := recover(); r != nil {
+			bad("query-panics", fmt.Sprintf("a seat query panics after a successful Next in [%s]: %v", s, r), "no panic", fmt.Sprint(r))
+		}
+	}()
+	var want []int
+	for i := 0; i < s.N; i++ {
+		if s.playable(i) {
+			want = append(want, i)
+		}
+	}
+	var got []int
+	for _, seat := range m.GetPlayableSeats() {
+		got = append(got, seat.ID)
+	}
+	if fmt.Sprint(sortedInts(got)) != fmt.Sprint(want) {
+		bad("playable-seats-query", fmt.Sprintf("GetPlayableSeats() after a successful Next in [%s]", s), fmt.Sprint(want), fmt.Sprint(sortedInts(got)))
+	}
+	if len(got) > 0 && got[0] != s.D {
+		bad("playable-seats-query", "GetPlayableSeats() does not start at the dealer", fmt.Sprint(s.D), fmt.Sprint(got[0]))
+	}
+	if n := m.GetPlayableSeatCount(); n != len(want) {
+		bad("playable-seats-query", "GetPlayableSeatCount() differs from the seats", fmt.Sprint(len(want)), fmt.Sprint(n))
+	}
+	all := m.GetSeats()
+	if len(all) != s.N {
+		bad("seats-query", "GetSeats() does not list every seat", fmt.Sprint(s.N), fmt.Sprint(len(all)))
+	}
+	for i, seat := range all {
+		if seat == nil || seat.ID != i || (seat.Player != nil) != s.Occ[i] || seat.IsActive != s.Act[i] || seat.IsReserved != s.Res[i] {
+			bad("seats-query", fmt.Sprintf("GetSeats()[%d] disagrees with GetSeat(%d)", i, i), "same seat", fmt.Sprint(seat))
+			break
+		}
+	}
+	act := 0
+	for _, seat := range m.GetActiveSeats() {
+		if seat == nil || !s.Act[seat.ID] {
+			bad("seats-query", "GetActiveSeats() lists a seat that is not active", "active seats", fmt.Sprint(seat))
+		}
+		act++
+	}
+	wantAct := 0
+	for i := 0; i < s.N; i++ {
+		if s.Act[i] {
+			wantAct++
+		}
+	}
+	if act != wantAct {
+		bad("seats-query", "GetActiveSeats() misses or adds seats", fmt.Sprint(wantAct), fmt.Sprint(act))
 	}
 }
 
@@ -477,6 +535,9 @@ func (c *Check) availability(s *St, bad sink) {
 		} else {
 			walt = append(walt, i)
 		}
+	}
+	if n := m.GetAvailableSeatCount(); n != len(wa) {
+		bad("available-seats", fmt.Sprintf("GetAvailableSeatCount() of [%s]", s), fmt.Sprint(len(wa)), fmt.Sprint(n))
 	}
 	if fmt.Sprint(sortedInts(a)) != fmt.Sprint(wa) || fmt.Sprint(sortedInts(alt)) != fmt.Sprint(walt) {
 		bad("available-seats", fmt.Sprintf("available seats of [%s]", s), fmt.Sprint(wa, walt), fmt.Sprint(sortedInts(a), sortedInts(alt)))
